@@ -6,6 +6,7 @@
 
    c2s items:  [t:"req", m, cid]        a complete request stream (schema + 1 row + EOS)
                [t:"is"]                 input-stream schema      [t:"in"]  tick / exchange input batch
+               [t:"inb"]                input batch of a schema the method does not take (first batch of the stream)
                [t:"cx"]                 cancel batch             [t:"ie"]  input-stream EOS
    s2c items:  [t:"S", k, cid, logs]    a complete stream: k = "result" | "err" | "hdr"; logs = #log batches in it
                [t:"os", cid]            output-stream schema     [t:"d", cid, i]  data batch number i
@@ -15,6 +16,7 @@
 
    The client runs a fixed *script* (chosen in Init): a sequence of calls, each [m, ops] with ops the client
    operations on the stream session:  "t" tick/exchange, "c" close, "x" cancel, "i" iterate to the end,
+   "b" exchange() with a batch whose schema is not the stream's input schema (exchange streams only),
    for unary calls ops = <<>> or <<"L">> (the client's log callback raises).  Ops left over when the session has
    ended (by close/cancel, or by itself: stop / error) are applied to the ended session (CPost).  After the script a probe
    unary call is made.  obs is the client-observable history; it is a function of the script (lock-step).
@@ -24,10 +26,13 @@
    Design switches (TRUE = intended = the code after the fix commits; FALSE reproduces the code as found):
      FixStray   the serve loop swallows the input stream of a stream call it rejected before the stream opened
      FixInitChk non-Stream / missing declared header are reported as init errors instead of killing the loop
-     FixDrain   close()/cancel() drain through an error batch; a raising log callback still drains            *)
+     FixDrain   close()/cancel() drain through an error batch; a raising log callback still drains
+     FixBadIn   exchange() refuses a batch of another schema on an open input stream locally and closes the stream
+                in step (as found: the IPC writer's error was taken for a broken transport, the stream was left open
+                and the next request was read by the server as stream input)                                   *)
 EXTENDS Naturals, Sequences, FiniteSets, TLC
 
-CONSTANTS MaxCalls, MaxTicks, VerMismatch, FixStray, FixInitChk, FixDrain,
+CONSTANTS MaxCalls, MaxTicks, VerMismatch, FixStray, FixInitChk, FixDrain, FixBadIn,
           LogsBeforeRaise    \* are logs emitted by a process() step that then raises delivered before the error? (C08)
 
 \* ------------------------------------------------------------------------------------------ service
@@ -75,6 +80,7 @@ OpsFor(m) == IF m.k = "unary" THEN (IF m.u \in {"logok", "lograise"} THEN {<<>>,
                   \* operations on a session that has already ended: close()/cancel() again (idempotent, nothing may
                   \* reach the wire), tick()/exchange() on a closed session (refused locally)
                   \cup {Ticks(k) \o <<e, e2>> : k \in 0..1, e \in {"c", "x"}, e2 \in {"c", "x", "t"}}
+                  \cup (IF m.k = "exch" THEN {<<"b", "c">>, <<"t", "b", "c">>, <<"t", "b", "t", "c">>} ELSE {})
                   \* "L" first: the client's log callback raises on every log batch it is handed (also while draining)
                   \cup (IF \E j \in 1..Len(m.steps) : m.steps[j] \in {"logemit", "log2emit", "lograise"}
                         THEN {<<"L", "t", "c">>, <<"L", "t", "x">>} ELSE {})
@@ -153,7 +159,7 @@ CReadHeader ==
 CPost ==
   /\ PostPending
   /\ cli' = [cli EXCEPT !.op = @ + 1]
-  /\ IF Ops[cli.op + 1] \in {"t", "i"} /\ ~(Ops[cli.op + 1] = "i" /\ cli.how = "i")     \* (the iteration that just ended)
+  /\ IF Ops[cli.op + 1] \in {"t", "i", "b"} /\ ~(Ops[cli.op + 1] = "i" /\ cli.how = "i")     \* (the iteration that just ended)
      THEN Obs(<<"closed_error">>) ELSE UNCHANGED obs
   /\ UNCHANGED <<c2s, s2c, srv, script, badResp, broken>>
 
@@ -165,6 +171,23 @@ CTick ==
   /\ c2s' = c2s \o OpenIn \o <<[t |-> "in"]>>
   /\ cli' = [cli EXCEPT !.inOpen = TRUE, !.pc = "rd_out", !.how = NextOp, !.op = IF NextOp = "t" THEN @ + 1 ELSE @]
   /\ UNCHANGED <<s2c, srv, script, obs, badResp, broken>>
+\* the session ended on the client side by itself (stop / error): close() = EOS + drain
+EndSession(c) == [c EXCEPT !.closed = TRUE, !.pc = "drain"]
+CloseWrite == c2s' = c2s \o <<[t |-> "ie"]>>
+\* exchange() with a batch of another schema.  Input stream not open yet: it is opened with that schema and the
+\* server refuses the batch.  Already open: refused locally, the stream is closed in step (EOS + drain).
+CBadIn ==
+  /\ cli.pc = "sess" /\ ~cli.closed /\ NextOp = "b"
+  /\ IF ~cli.inOpen
+     THEN /\ c2s' = c2s \o <<[t |-> "is"], [t |-> "inb"]>>
+          /\ cli' = [cli EXCEPT !.inOpen = TRUE, !.pc = "rd_out", !.how = "b", !.op = @ + 1]
+          /\ UNCHANGED <<obs, broken>>
+     ELSE IF FixBadIn
+     THEN /\ Obs(<<"err", 0>>) /\ CloseWrite /\ cli' = [EndSession(cli) EXCEPT !.op = @ + 1, !.how = "b"] /\ UNCHANGED broken
+     ELSE \* as found: reported as a transport failure, session marked closed, nothing written, input stream left open
+          /\ Obs(<<"transport_error">>) /\ UNCHANGED <<c2s, broken>>
+          /\ cli' = [cli EXCEPT !.closed = TRUE, !.pc = "idle", !.op = @ + 1, !.how = "b"]
+  /\ UNCHANGED <<s2c, srv, script, badResp>>
 \* close(): EOS on the input stream (an empty stream if it was never opened), then drain the output
 CClose ==
   /\ cli.pc = "sess" /\ ~cli.closed /\ NextOp = "c"
@@ -177,9 +200,6 @@ CCancel ==
   /\ cli' = [cli EXCEPT !.inOpen = TRUE, !.closed = TRUE, !.pc = "drain", !.how = "cancel", !.op = @ + 1]
   /\ UNCHANGED <<s2c, srv, script, obs, badResp, broken>>
 
-\* the session ended on the client side by itself (stop / error): close() = EOS + drain
-EndSession(c) == [c EXCEPT !.closed = TRUE, !.pc = "drain"]
-CloseWrite == c2s' = c2s \o <<[t |-> "ie"]>>
 
 \* ---- reading the output stream after a tick / exchange
 CReadOut ==
@@ -229,7 +249,7 @@ CDrain ==
                [] OTHER      -> broken' = TRUE /\ cli' = [cli EXCEPT !.pc = "idle"] /\ UNCHANGED badResp
   /\ UNCHANGED <<c2s, srv, script, obs>>
 
-Client == CStart \/ CReadUnary \/ CLeak \/ CReadHeader \/ CPost \/ CTick \/ CClose \/ CCancel \/ CReadOut \/ CDrain
+Client == CStart \/ CReadUnary \/ CLeak \/ CReadHeader \/ CPost \/ CTick \/ CBadIn \/ CClose \/ CCancel \/ CReadOut \/ CDrain
 
 \* ========================================================================================== server
 Push(x) == s2c' = Append(s2c, x)
@@ -299,6 +319,8 @@ SLoop ==
                  [] st = "raise"    -> s2c' = s2c \o <<E, Z>> /\ srv' = [srv EXCEPT !.pc = "drain_in"]
                  [] st = "lograise" -> /\ s2c' = s2c \o (IF LogsBeforeRaise THEN <<L>> ELSE <<>>) \o <<E, Z>>
                                        /\ srv' = [srv EXCEPT !.pc = "drain_in"])
+          [] x.t = "inb" -> /\ s2c' = s2c \o <<[t |-> "oe", cid |-> c], [t |-> "oz", cid |-> c]>>      \* input schema mismatch
+                            /\ srv' = [srv EXCEPT !.pc = "drain_in"]
           [] x.t = "cx" -> s2c' = s2c \o <<[t |-> "oz", cid |-> c]>> /\ srv' = [srv EXCEPT !.pc = "drain_in"]
           [] x.t = "ie" -> s2c' = s2c \o <<[t |-> "oz", cid |-> c]>> /\ srv' = [srv EXCEPT !.pc = "idle"]
           [] OTHER -> UNCHANGED s2c /\ srv' = [srv EXCEPT !.pc = "dead"]
